@@ -149,3 +149,11 @@ def judge(case, impl, model):
 
 def extra_coverage(results):
     return T.coverage(results)
+
+
+def twins(case):
+    """amplified run: P <-> Pdup, 1 <-> True <-> 1.0, Literal members (see _checker_common.twins); call-level cases: primed twins"""
+    return K.twins(case)
+
+
+export_state, import_state = K.export_state, K.import_state      # the name table travels with replays / amplified runs
